@@ -143,6 +143,8 @@ pub struct Cb {
     pub bump: bool,
     /// salt mixed into the decision hash so that different leaves decide differently
     pub salt: u32,
+    /// for token-returning callbacks: index of the (unit) variant that is emitted
+    pub target: usize,
 }
 
 #[derive(Clone, Debug, PartialEq, Eq)]
@@ -381,34 +383,6 @@ impl Def {
         out
     }
 
-    /// Callback function items (R-level). `this` is the enum type path.
-    pub fn render_callbacks(&self) -> String {
-        let mut out = String::new();
-        let lt = if self.variants.iter().any(|v| *v == VarKind::Slice) { "<'s>" } else { "" };
-        let this = format!("{}{}", self.name, lt);
-        for (leaf, p) in self.pats.iter().enumerate() {
-            if let Some(cb) = &p.cb {
-                if !cb.inline {
-                    out.push_str(&format!(
-                        "fn {}<'s>(lex: &mut Lexer<'s, {}>) -> {} {{ {} }}\n",
-                        cb_fn_name(&self.name, leaf),
-                        this,
-                        cb_ret_type(cb.ret, &this),
-                        cb_body(cb, leaf, &this, self, p),
-                    ));
-                }
-            }
-        }
-        if self.error == ErrKind::CustomCb {
-            out.push_str(&format!(
-                "fn {}_errcb<'s>(lex: &mut Lexer<'s, {}>) -> VErr {{ vrt::on_error_cb(lex.span()) }}\n",
-                self.name.to_lowercase(),
-                this
-            ));
-        }
-        out
-    }
-
     pub fn to_json(&self) -> Value {
         json!({
             "name": self.name, "family": self.family, "utf8": self.utf8, "utf8_explicit": self.utf8_explicit,
@@ -417,7 +391,7 @@ impl Def {
                 "kind": match p.kind { PatKind::Token => "token", PatKind::Regex => "regex", PatKind::Skip => "skip" },
                 "lit": p.lit.to_json(), "ignore_case": p.ignore_case, "priority": p.priority,
                 "allow_greedy": p.allow_greedy, "variant": p.variant,
-                "cb": p.cb.as_ref().map(|c| json!({"ret": c.ret.name(), "inline": c.inline, "bump": c.bump, "salt": c.salt})),
+                "cb": p.cb.as_ref().map(|c| json!({"ret": c.ret.name(), "inline": c.inline, "bump": c.bump, "salt": c.salt, "target": c.target})),
                 "arg_order": p.arg_order, "cb_positional": p.cb_positional,
             })).collect::<Vec<_>>(),
             "variants": self.variants.iter().map(|v| match v { VarKind::Unit => "unit", VarKind::Slice => "slice", VarKind::U64 => "u64" }).collect::<Vec<_>>(),
@@ -448,6 +422,7 @@ impl Def {
                     inline: p["cb"]["inline"].as_bool().unwrap(),
                     bump: p["cb"]["bump"].as_bool().unwrap(),
                     salt: p["cb"]["salt"].as_u64().unwrap() as u32,
+                    target: p["cb"]["target"].as_u64().unwrap_or(0) as usize,
                 }) },
                 arg_order: p["arg_order"].as_array().map(|a| a.iter().map(us).collect()).unwrap_or_default(),
                 cb_positional: p["cb_positional"].as_bool().unwrap_or(false),
@@ -467,37 +442,104 @@ pub fn cb_fn_name(def: &str, leaf: usize) -> String {
 
 fn cb_expr(cb: &Cb, def: &str, leaf: usize) -> String {
     if cb.inline {
-        // inline closure delegating to the same body as the named form would have; the body is
-        // rendered by the R-level module writer via `vrt::cbk::<kind>` helpers.
-        format!("|lex| vrt::cb_{}(lex, {}, {}, {})", cb.ret.name().to_lowercase(), leaf, cb.salt, cb.bump)
+        // placeholder replaced by the real body in `render_full`
+        format!("|lex| {{ {} }}", INLINE_MARK.replace("LEAF", &leaf.to_string()).replace("DEF", def))
     } else {
         cb_fn_name(def, leaf)
     }
 }
 
-fn cb_ret_type(ret: CbRet, this: &str) -> String {
-    match ret {
-        CbRet::Unit => "()".into(),
-        CbRet::Bool => "bool".into(),
-        CbRet::Val => "u64".into(),
-        CbRet::OptVal => "Option<u64>".into(),
-        CbRet::ResVal => "Result<u64, VErr>".into(),
-        CbRet::SkipAlways => "Skip".into(),
-        CbRet::ResSkip => "Result<Skip, VErr>".into(),
-        CbRet::FilterVal => "Filter<u64>".into(),
-        CbRet::FilterResVal => "FilterResult<u64, VErr>".into(),
-        CbRet::FilterUnit => "Filter<()>".into(),
-        CbRet::Tok => this.to_string(),
-        CbRet::ResTok => format!("Result<{this}, VErr>"),
-        CbRet::FilterTok => format!("Filter<{this}>"),
-        CbRet::FilterResTok => format!("FilterResult<{this}, VErr>"),
-        CbRet::SkUnit => "()".into(),
-        CbRet::SkSkip => "Skip".into(),
-        CbRet::SkResUnit => "Result<(), VErr>".into(),
-        CbRet::SkResSkip => "Result<Skip, VErr>".into(),
-    }
-}
+const INLINE_MARK: &str = "__inline_body_DEF_LEAF()";
 
-fn cb_body(cb: &Cb, leaf: usize, _this: &str, _def: &Def, _p: &Pat) -> String {
-    format!("vrt::cb_{}(lex, {}, {}, {})", cb.ret.name().to_lowercase(), leaf, cb.salt, cb.bump)
+impl Def {
+    fn err_ty(&self) -> &'static str {
+        if self.error == ErrKind::Unit { "()" } else { "VErr" }
+    }
+    fn err_val(&self, leaf: usize) -> String {
+        if self.error == ErrKind::Unit { "()".into() } else { format!("VErr::Cb({leaf})") }
+    }
+    pub fn this_ty(&self) -> String {
+        let lt = if self.variants.iter().any(|v| *v == VarKind::Slice) { "<'s>" } else { "" };
+        format!("{}{}", self.name, lt)
+    }
+    pub fn cb_ret_type(&self, ret: CbRet) -> String {
+        let this = self.this_ty();
+        let e = self.err_ty();
+        match ret {
+            CbRet::Unit | CbRet::SkUnit => "()".into(),
+            CbRet::Bool => "bool".into(),
+            CbRet::Val => "u64".into(),
+            CbRet::OptVal => "Option<u64>".into(),
+            CbRet::ResVal => format!("Result<u64, {e}>"),
+            CbRet::SkipAlways | CbRet::SkSkip => "Skip".into(),
+            CbRet::ResSkip | CbRet::SkResSkip => format!("Result<Skip, {e}>"),
+            CbRet::FilterVal => "Filter<u64>".into(),
+            CbRet::FilterResVal => format!("FilterResult<u64, {e}>"),
+            CbRet::FilterUnit => "Filter<()>".into(),
+            CbRet::Tok => this,
+            CbRet::ResTok => format!("Result<{this}, {e}>"),
+            CbRet::FilterTok => format!("Filter<{this}>"),
+            CbRet::FilterResTok => format!("FilterResult<{this}, {e}>"),
+            CbRet::SkResUnit => format!("Result<(), {e}>"),
+        }
+    }
+    /// Body of the callback for `leaf`: logs the invocation (and bumps) through `vrt::cb_enter_*`,
+    /// then maps the decision hash to a return value. The same mapping is implemented
+    /// independently by the checker (`vrt::expect`).
+    pub fn cb_body(&self, leaf: usize) -> String {
+        let p = &self.pats[leaf];
+        let cb = p.cb.as_ref().unwrap();
+        let enter = if self.utf8 { "cb_enter_str" } else { "cb_enter_bytes" };
+        let tok = format!("{}::{}", self.name, Def::variant_name(cb.target));
+        let e = self.err_val(leaf);
+        let tail = match cb.ret {
+            CbRet::Unit | CbRet::SkUnit => "let _ = h;".to_string(),
+            CbRet::Bool => "h % 2 == 0".into(),
+            CbRet::Val => "h".into(),
+            CbRet::OptVal => "if h % 3 == 0 { None } else { Some(h) }".into(),
+            CbRet::ResVal => format!("if h % 3 == 0 {{ Err({e}) }} else {{ Ok(h) }}"),
+            CbRet::SkipAlways | CbRet::SkSkip => "let _ = h; Skip".into(),
+            CbRet::ResSkip | CbRet::SkResSkip => format!("if h % 2 == 0 {{ Err({e}) }} else {{ Ok(Skip) }}"),
+            CbRet::FilterVal => "if h % 2 == 0 { Filter::Emit(h) } else { Filter::Skip }".into(),
+            CbRet::FilterResVal => format!("match h % 3 {{ 0 => FilterResult::Emit(h), 1 => FilterResult::Skip, _ => FilterResult::Error({e}) }}"),
+            CbRet::FilterUnit => "if h % 2 == 0 { Filter::Emit(()) } else { Filter::Skip }".into(),
+            CbRet::Tok => format!("let _ = h; {tok}"),
+            CbRet::ResTok => format!("if h % 3 == 0 {{ Err({e}) }} else {{ Ok({tok}) }}"),
+            CbRet::FilterTok => format!("if h % 2 == 0 {{ Filter::Emit({tok}) }} else {{ Filter::Skip }}"),
+            CbRet::FilterResTok => format!("match h % 3 {{ 0 => FilterResult::Emit({tok}), 1 => FilterResult::Skip, _ => FilterResult::Error({e}) }}"),
+            CbRet::SkResUnit => format!("if h % 2 == 0 {{ Err({e}) }} else {{ Ok(()) }}"),
+        };
+        format!("let h = vrt::{enter}(lex, {leaf}, {}, {}); {tail}", cb.salt, cb.bump)
+    }
+
+    /// Full Rust source for the R level: enum + callbacks (inline bodies substituted).
+    pub fn render_full(&self) -> String {
+        let mut src = self.render();
+        for (leaf, p) in self.pats.iter().enumerate() {
+            if let Some(cb) = &p.cb {
+                if cb.inline {
+                    let mark = INLINE_MARK.replace("LEAF", &leaf.to_string()).replace("DEF", &self.name);
+                    src = src.replace(&mark, &self.cb_body(leaf));
+                }
+            }
+        }
+        let this = self.this_ty();
+        for (leaf, p) in self.pats.iter().enumerate() {
+            if let Some(cb) = &p.cb {
+                if !cb.inline {
+                    src.push_str(&format!(
+                        "fn {}<'s>(lex: &mut Lexer<'s, {}>) -> {} {{ {} }}\n",
+                        cb_fn_name(&self.name, leaf), this, self.cb_ret_type(cb.ret), self.cb_body(leaf)
+                    ));
+                }
+            }
+        }
+        if self.error == ErrKind::CustomCb {
+            src.push_str(&format!(
+                "fn {}_errcb<'s>(lex: &mut Lexer<'s, {}>) -> VErr {{ VErr::FromCb(lex.span().start, lex.span().end) }}\n",
+                self.name.to_lowercase(), this
+            ));
+        }
+        src
+    }
 }
